@@ -9,6 +9,7 @@ bound arguments.  Nothing from the analysed tree is imported or executed.
 from __future__ import annotations
 
 import ast
+import os
 from dataclasses import dataclass, field
 from fractions import Fraction as F
 
@@ -251,13 +252,14 @@ class Interp:
             if fi.cls is not None and params and params[0] == "self" and sv is None and "self" not in a:
                 sv = Inst(fi.cls, {}, "self")
             bound = {}
+            auto = it.symbolic_args(fi)
             for p in params + fi.kwonly:
                 if p == "self" and fi.cls is not None:
                     continue
                 if p in a:
                     bound[p] = a[p]() if callable(a[p]) else a[p]
                 else:
-                    bound[p] = sym_num(p)
+                    bound[p] = auto[p]
             if fi.vararg:
                 bound[fi.vararg] = a.get(fi.vararg, TupV([]))
             closure = None
@@ -266,6 +268,29 @@ class Interp:
             return it._exec_function(fi, bound, sv, closure, fi.cls)
 
         return self.explore(run)
+
+    _SIGNATURES = None
+
+    def symbolic_args(self, fi, skip_self=True):
+        """{parameter: value} for an analysis entry point: a symbol per parameter - except that an optional parameter
+        which the pinned signature of this function (bbstatic/signatures.json) does not have is evaluated at its
+        default (extensions are analysed for the calls existing users can make)."""
+        if Interp._SIGNATURES is None:
+            import json as _json
+
+            path = os.path.join(os.path.dirname(os.path.abspath(__file__)), "signatures.json")
+            Interp._SIGNATURES = _json.load(open(path)) if os.path.exists(path) else {}
+        known = Interp._SIGNATURES.get(fi.qualname.split("#")[0])
+        defaults = fi.defaults()
+        out = {}
+        for p in fi.params + fi.kwonly:
+            if skip_self and p in ("self", "cls") and fi.cls is not None and p == (fi.params[:1] or [None])[0]:
+                continue
+            if known is not None and p not in known and p in defaults:
+                out[p] = self.eval(defaults[p], Env(None, fi.module, None))
+            else:
+                out[p] = sym_num(p)
+        return out
 
     def _closure_env_for(self, parent: FunctionInfo):
         """Environment of an enclosing function, obtained by interpreting its body (first partition)
@@ -904,6 +929,10 @@ class Interp:
     def _truth(self, v):
         if isinstance(v, NoneV):
             return BoolV("const", False)
+        if isinstance(v, TupV) and not v.rowview:
+            return BoolV("const", bool(v.items))
+        if id(v) in getattr(self, "_listviews", ()):
+            return BoolV("const", True)  # the elementwise view of a comprehension that produced its generic element
         return BoolV("opaque", nf.show(self.to_nf(v), 200))
 
     def _e_Compare(self, n, env):
@@ -1032,6 +1061,7 @@ class Interp:
         if len(n.generators) != 1:
             raise AnalysisError("nested comprehension generators are not supported")
         it = self.eval(gen.iter, env)
+        self.log("for_iter", n, iter=it, comprehension=True)
         items = None
         if isinstance(it, (TupV, SetV)):
             items = it.items
@@ -1045,13 +1075,29 @@ class Interp:
                 if all(self.decide(self.eval(c, sub), c) for c in gen.ifs):
                     out.append(build(sub))
             return out, True
-        self._assign(gen.target, self._element_of(it), sub, n)
+        if isinstance(it, EnumV) and isinstance(gen.target, ast.Tuple) and len(gen.target.elts) == 2 and isinstance(gen.target.elts[0], ast.Name):
+            # [f(i, row) for i, row in enumerate(a)]: the generic element, with the index as a symbol
+            iv = sym_num(self._counter_symbol(gen.target.elts[0].id, n))
+            self._assign(gen.target.elts[0], iv, sub, n)
+            self._assign(gen.target.elts[1], self._index(it.inner, iv, n), sub, n)
+        else:
+            self._assign(gen.target, self._element_of(it), sub, n)
+        # a filter is a trace partition: on the partition where it fails the generic element is not in the list
+        for c in gen.ifs:
+            if not self.decide(self.eval(c, sub), c):
+                return [], False
         return [build(sub)], False
 
     def _e_ListComp(self, n, env):
         out, unrolled = self._comp(n, env, lambda e: self.eval(n.elt, e))
         if unrolled:
             return TupV(out, True)
+        if not out:
+            return TupV([], True)  # the generic element was filtered out on this partition
+        self._listviews = getattr(self, "_listviews", set())
+        self._listviews.add(id(out[0]))
+        self._keepalive = getattr(self, "_keepalive", [])
+        self._keepalive.append(out[0])
         return out[0]  # elementwise view: the list *is* the element term
 
     def _e_GeneratorExp(self, n, env):
